@@ -22,8 +22,11 @@ fn build_with(pre: &Pre, ig: InputGenerator) -> CliT<RecSink<R>> {
     )
 }
 
-fn glue_body(ascii: bool) {
-    let pre = any_pre();
+fn glue_body(ascii: bool, valid: Option<usize>) {
+    let pre = match valid {
+        Some(v) => any_pre_valid(v),
+        None => any_pre(),
+    };
     let csi: bool = kani::any();
     let last: u8 = kani::any();
     let abuf: [u8; 4] = kani::any();
@@ -99,5 +102,12 @@ fn glue_body(ascii: bool) {
 #[kani::proof]
 #[kani::unwind(18)]
 fn glue_ascii() {
-    glue_body(true);
+    glue_body(true, None);
+}
+
+/// The same with a line of exactly one byte (quick tier).
+#[kani::proof]
+#[kani::unwind(18)]
+fn glue_ascii_v1() {
+    glue_body(true, Some(1));
 }
